@@ -526,7 +526,7 @@ impl Sys {
     fn observe_typed(&self, w: &World, out: &mut Vec<(String, String)>) {
         // bin archive in the game's endianness
         let want = self.cfg.small_archive();
-        for p in ["t/arch.bin".to_string(), format!("t/arch.bin{}", self.cfg.sfx())] {
+        for p in ["t/arch.bin".to_string(), format!("t/arch.bin{}", self.cfg.sfx()), format!("t/foreign.bin{}", self.cfg.sfx())] {
             match w.fs.read_archive(&p, false) {
                 Err(e) => out.push(("typed:read_archive".into(), format!("read_archive({:?}) failed: {} (the file holds a {:?}-endian archive)", p, e, self.cfg.endian()))),
                 Ok(a) => {
@@ -931,6 +931,21 @@ fn typed_layer(cfg_loc: Loc, probe: &Config) -> Tree {
     t.insert("t/arch.bin".into(), file(&arch_bytes));
     t.insert(format!("t/arch.bin{}", probe.sfx()), file(&probe.encode_stored(&arch_bytes)));
     t.insert("t/text.bin".into(), file(&probe.text_archive_bytes()));
+    // a conforming compressed file the library's own writer never produces: for the LZ13 games
+    // an LZ11 stream with the 8-byte header (24-bit size 0, 32-bit size follows); for the LZ10
+    // games a stream made of literals only
+    {
+        let toks: Vec<Token> = arch_bytes.iter().map(|b| Token::Lit(*b)).collect();
+        let stream = match probe.loc {
+            Loc::FE9 | Loc::FE10 => ref_lz::encode(&toks, Kind::Lz10, arch_bytes.len(), None),
+            _ => {
+                let mut v = vec![0x13, 0x55, 0x66, 0x77];
+                v.extend(ref_lz::encode_with_header(&toks, Kind::Lz11, arch_bytes.len(), None, true));
+                v
+            }
+        };
+        t.insert(format!("t/foreign.bin{}", probe.sfx()), file(&stream));
+    }
     t.insert(format!("t/z{}", probe.sfx()), file(b"\x77not a compressed stream"));
     if let Ok(b) = std::fs::read("/repo/resources/test/FE9Arc.bin") {
         t.insert("t/pack.bin".into(), file(&b));
